@@ -103,25 +103,40 @@ def tree_hash():
 
 
 def parse_output(out, names):
-    """per-harness result from cargo kani's stdout"""
+    """per-harness result from cargo kani's stdout (terse format, possibly interleaved by `Thread k:` prefixes)"""
     res = {}
-    # sections start with "Checking harness <path>..."
-    parts = re.split(r'(?m)^Checking harness ', out)
-    for part in parts[1:]:
-        hname = part.split('...', 1)[0].strip()
-        short = hname.split('::')[-1]
-        status = 'ERROR'
-        m = re.search(r'VERIFICATION:- (\w+)', part)
+    cur = {}
+    chunks = re.split(r'(?m)^(?:Thread (\d+): ?)', out)
+    # chunks = [pre, tid, text, tid, text, ...]; without -j there are no Thread prefixes
+    seq = []
+    if len(chunks) == 1:
+        for part in re.split(r'(?m)^(?=Checking harness )', out):
+            seq.append(('0', part))
+    else:
+        for k in range(1, len(chunks) - 1, 2):
+            seq.append((chunks[k], chunks[k + 1]))
+    for tid, part in seq:
+        m = re.match(r'\s*Checking harness (\S+?)\.\.\.', part)
         if m:
-            status = m.group(1)
+            cur[tid] = m.group(1)
+            rest = part[m.end():]
+            if 'VERIFICATION:-' not in rest:
+                continue
+            part = rest
+        if 'VERIFICATION:-' not in part or tid not in cur:
+            continue
+        hname = cur[tid]
+        short = hname.split('::')[-1]
+        status = re.search(r'VERIFICATION:- (\w+)', part).group(1)
         tm = re.search(r'Verification Time: ([\d.]+)s', part)
         nchk = re.search(r'\*\* (\d+) of (\d+) failed', part)
         failed = re.findall(r'(?m)^Failed Checks: (.*)$', part)
-        covers = re.findall(r'(?m)^ \*\* (\d+) of (\d+) cover properties satisfied', part)
-        unwind = 'unwinding assertion' in ' '.join(failed)
-        res[short] = {'harness': hname, 'status': status, 'time_s': float(tm.group(1)) if tm else None,
+        covers = re.findall(r'\*\* (\d+) of (\d+) cover properties satisfied', part)
+        timed_out = 'CBMC timed out' in part or 'CBMC failed' in part
+        res[short] = {'harness': hname, 'status': 'TIMEOUT' if timed_out else status, 'time_s': float(tm.group(1)) if tm else None,
                       'checks_total': int(nchk.group(2)) if nchk else None, 'checks_failed': int(nchk.group(1)) if nchk else None,
-                      'failed_checks': failed[:10], 'covers': covers[0] if covers else None, 'unwind_failure': unwind,
+                      'failed_checks': failed[:10], 'covers': '/'.join(covers[0]) if covers else None,
+                      'unwind_failure': 'unwinding assertion' in ' '.join(failed),
                       'tail': part[-3000:] if status != 'SUCCESSFUL' else ''}
     for n in names:
         res.setdefault(n, {'harness': n, 'status': 'MISSING', 'tail': out[-3000:]})
@@ -139,7 +154,7 @@ def run_harnesses(names, playback=False, timeout=3000):
     d = tempfile.mkdtemp(prefix='taverif-kani-')
     try:
         missing = make_crate(d)
-        cmd = ['timeout', str(timeout), 'cargo', 'kani', '-Z', 'function-contracts', '-Z', 'stubbing', '-j', '8', '--output-format', 'terse']
+        cmd = ['timeout', str(timeout), 'cargo', 'kani', '-Z', 'function-contracts', '-Z', 'stubbing', '-j', '8', '--output-format', 'terse', '--no-overflow-checks', '-Z', 'unstable-options', '--harness-timeout', os.environ.get('VERIF_KANI_HTIMEOUT', '600s')]
         if playback:
             cmd += ['-Z', 'concrete-playback', '--concrete-playback=print']
         for n in names:
